@@ -241,11 +241,11 @@ OPTION_TABLE = [
 ]
 OPT_SAMPLES = [
     {"id": "1", "kind": "a", "flag": "true", "ratio": "1.5", "when": "2020-01-02", "naïve": 1, "owner": {"login": "x", "k1": 1},
-     "stats": {"1": 1, "2": 2}, "logs": {"loga": "x", "logb": "y"}, "child": {"v": 1, "w": 2, "z": 3}, "child2": {"v": 1, "w": 2, "u": 3}},
+     "stats": {"1": 1, "2": 2}, "splitkeys": {"7": 1, "logz": 2}, "logs": {"loga": "x", "logb": "y"}, "child": {"v": 1, "w": 2, "z": 3}, "child2": {"v": 1, "w": 2, "u": 3}},
     {"id": "2", "kind": "b", "flag": "false", "ratio": "2", "when": "2020-01-03", "naïve": 2, "owner": {"login": "y", "k2": 2},
-     "stats": {"3": 1}, "logs": {"logc": "z"}, "child": {"v": 1, "w": 2, "z": 3}, "child2": {"v": 1, "w": 2, "u": 3}},
+     "stats": {"3": 1}, "splitkeys": {"8": 1, "logy": 2}, "logs": {"logc": "z"}, "child": {"v": 1, "w": 2, "z": 3}, "child2": {"v": 1, "w": 2, "u": 3}},
     {"id": "3", "kind": "c", "flag": "true", "ratio": "3", "when": "2020-01-04", "naïve": 3, "owner": {"login": "z"},
-     "stats": {}, "logs": {}, "child": {"v": 1, "w": 2, "z": 3}, "child2": {"v": 1, "w": 2, "u": 3}},
+     "stats": {}, "splitkeys": {"9": 3, "logx": 4}, "logs": {}, "child": {"v": 1, "w": 2, "z": 3}, "child2": {"v": 1, "w": 2, "u": 3}},
 ]
 
 
